@@ -326,6 +326,27 @@ Proof.
   specialize (IH s1 HM Ho2 Hs1 Hb1). destruct (run c s1 t) as [s2 rs]. exact IH.
 Qed.
 
+Lemma run_bounded M c ops : forall s,
+  0 <= M -> Forall (op_limit_le M) ops -> sizes_le M (s_sizes s) -> bufs_le M (s_bufs s) ->
+  sizes_le M (s_sizes (fst (run c s ops))) /\ bufs_le M (s_bufs (fst (run c s ops))).
+Proof.
+  induction ops as [|o t IH]; intros s HM Ho Hs Hb; [split; assumption|].
+  cbn [run]. inversion Ho as [|? ? Ho1 Ho2]; subst.
+  destruct (step_bounded M c s o HM Ho1 Hs Hb) as [Hs1 Hb1].
+  destruct (step c s o) as [s1 r]. cbn [fst] in *.
+  specialize (IH s1 HM Ho2 Hs1 Hb1). destruct (run c s1 t) as [s2 rs]. exact IH.
+Qed.
+
+(* ... also when the incident handling starts or stops failing (or the reporter kind changes) in mid-history *)
+Theorem buffers_bounded_segs M segs : forall s,
+  0 <= M -> Forall (fun cs => Forall (op_limit_le M) (snd cs)) segs -> sizes_le M (s_sizes s) -> bufs_le M (s_bufs s) ->
+  bufs_le M (s_bufs (run_segs s segs)).
+Proof.
+  induction segs as [|[c ops] t IH]; intros s HM Ho Hs Hb; [exact Hb|].
+  cbn [run_segs]. inversion Ho as [|? ? Ho1 Ho2]; subst. cbn [snd] in Ho1.
+  destruct (run_bounded M c ops s HM Ho1 Hs Hb) as [Hs1 Hb1]. apply IH; assumption.
+Qed.
+
 Lemma init_sizes_le M : DEFAULT_SIZELIMIT <= M -> sizes_le M (s_sizes init).
 Proof. intros H f l. exact H. Qed.
 
@@ -761,3 +782,20 @@ Example ex_incident_recorded_hyps :
   let s := fst (run (mkCfg true true NoFault) init [Msg None 0 20 false true 0; Msg None 2 20 true true 1]) in
   i_rep (s_inc s) = None /\ i_zombie (s_inc s) = false /\ 0 <= limit_of (s_sizes s) 0 30 /\ incident_level <= 35.
 Proof. vm_compute. repeat split; try reflexivity; discriminate. Qed.
+
+(* failing incident handling (logdir gone: incident_declared raises for every trigger): limit 2 on (None, 30), five
+   triggering events: msg still returns 0..4, the buffer holds the last two, the internal-error buffer holds its own *)
+Example ex_fault_bounded :
+  let '(s, r) := run (mkCfg true true ReporterRaises) init
+                     [SetSize 0 30 2; Msg None 0 30 true true 0; Msg None 0 30 true true 1; Msg None 0 30 true true 2;
+                      Msg None 0 30 true true 3; Msg None 0 30 true true 4] in
+  r = [None; Some 0; Some 1; Some 2; Some 3; Some 4] /\ ev_ids (buf_get (s_bufs s) 0 30) = [3; 4] /\
+  ev_ids (buf_get (s_bufs s) 1 30) = [-1; -2; -3; -4; -5] /\ i_declared (s_inc s) = 10 /\ i_recorded (s_inc s) = 0 /\
+  i_junk (s_inc s) = 0.
+Proof. vm_compute. repeat split; reflexivity. Qed.
+
+Example ex_fault_qualifier_bounded :
+  let s := fst (run (mkCfg true false QualifierRaises) init
+                    [SetSize 0 35 1; Msg None 0 35 true true 0; Msg None 0 35 true true 1; Msg None 0 35 true true 2]) in
+  ev_ids (buf_get (s_bufs s) 0 35) = [2] /\ i_declared (s_inc s) = 0.
+Proof. vm_compute. split; reflexivity. Qed.
